@@ -2,6 +2,7 @@ package main
 
 import (
 	"fmt"
+	"os"
 	"go/types"
 	"sort"
 	"strings"
@@ -20,7 +21,7 @@ var purePkgs = []string{
 	"strconv", "path", "path/filepath", "fmt", "strings", "bytes", "math", "errors", "unicode", "unicode/utf8",
 	"encoding/hex", "encoding/binary", "github.com/pingcap/errors", "github.com/pkg/errors", "net/url", "regexp", "math/bits",
 	"github.com/coreos/go-semver/semver", "github.com/gogo/protobuf/proto", "github.com/golang/protobuf/proto", "reflect", "encoding/json",
-	"github.com/docker/go-units", "context", "google.golang.org/grpc/status", "google.golang.org/grpc/codes", "go.etcd.io/etcd/clientv3", "go.etcd.io/etcd/etcdserver/etcdserverpb", "go.etcd.io/etcd/mvcc/mvccpb",
+	"github.com/docker/go-units", "context", "google.golang.org/grpc/status", "google.golang.org/grpc/codes", "google.golang.org/grpc/metadata", "go.etcd.io/etcd/clientv3", "go.etcd.io/etcd/etcdserver/etcdserverpb", "go.etcd.io/etcd/mvcc/mvccpb",
 }
 
 // results of these are arbitrary (not functions of the arguments) but the heap is untouched.
@@ -60,6 +61,12 @@ func (s *Session) call(fr *Frame, cc *ssa.CallCommon, st *State, instr *ssa.Call
 	args := make([]Val, len(cc.Args))
 	for i, a := range cc.Args {
 		args[i] = s.valueOf(fr, a)
+	}
+	if fr.top && os.Getenv("GOVC_VAC") != "" {
+		s.addObl(&Obligation{Name: fmt.Sprintf("%s/dbgvac@%s@b%d", fr.oblPfx, calleeName(cc), fr.curBlock.Index), Kind: "vacuity", Func: fr.oblPfx, Src: "debug reachability", Guard: TTrue, Formula: Not(st.Reach)})
+	}
+	if fr.top && fr.contract != nil && len(fr.contract.Interf) > 0 {
+		s.interfere(fr, cc, st, instr)
 	}
 	if fr.top && fr.contract != nil && len(fr.contract.Ats) > 0 {
 		s.callSiteAsserts(fr, cc, st, instr, nil)
@@ -294,6 +301,10 @@ func (s *Session) invoke(fr *Frame, cc *ssa.CallCommon, recv Val, args []Val, st
 			return s.applyContract(fr, c, nil, cc.Signature(), append([]Val{recv}, args...), st)
 		}
 	}
+	if m.Pkg() != nil && strings.HasPrefix(m.Pkg().Path(), "github.com/pingcap/kvproto") {
+		s.note("remote call %s (gRPC client stub): no effect on this process's modelled state, arbitrary result", full)
+		return s.freshResult(st, res, m.Name())
+	}
 	if m.Pkg() != nil && (hasPrefixAny(m.Pkg().Path(), noEffectPkgs) || m.Pkg().Path() == etcdPkg || m.Pkg().Path() == "context") {
 		if m.Pkg().Path() == etcdPkg {
 			s.note("etcd client call %s: no effect on modelled state, arbitrary result", full)
@@ -369,6 +380,14 @@ func (s *Session) applyContract(fr *Frame, c *Contract, fn *ssa.Function, sig *t
 	ord := fr.callOrd[short]
 	pkgT := s.eng.typesPkg(c.Pkg)
 	se := &SpecEnv{sess: s, pkg: pkgT, vars: env, st: st, old: st}
+	if fr.top && fr.curBlock != nil && !fr.vacDone[fr.curBlock.Index] && (len(c.Requires) > 0 || len(c.Ensures) > 0) {
+		// guard against vacuous proofs: the call site must be reachable under the accumulated assumptions
+		if fr.vacDone == nil {
+			fr.vacDone = map[int]bool{}
+		}
+		fr.vacDone[fr.curBlock.Index] = true
+		s.addObl(&Obligation{Name: fmt.Sprintf("%s/reach@%s#%d/vacuity", fr.oblPfx, short, ord), Kind: "vacuity", Func: fr.oblPfx, Src: "call site reachable (assumptions consistent)", Guard: TTrue, Formula: Not(st.Reach)})
+	}
 	for i, rq := range c.Requires {
 		subs := splitClause(rq)
 		for _, sub := range subs {
@@ -380,6 +399,29 @@ func (s *Session) applyContract(fr *Frame, c *Contract, fn *ssa.Function, sig *t
 	old := st.clone()
 	// havoc the frame
 	s.havocItems(se, c.Modifies, st)
+	// ghost events inside the callee: the clock and the per-event positions only move forward
+	if fn != nil && s.eng.mayEvent(fn, map[*ssa.Function]bool{}) {
+		clk0 := s.ghostGet(st, "evclock")
+		last0 := s.ghostGet(st, "evlast")
+		s.havocHeap(st, "X:evclock", arrSort(SInt))
+		s.havocHeap(st, "X:evlast", arrSort(SInt))
+		s.havocHeap(st, "X:evres", arrSort(SInt))
+		clk1 := s.ghostGet(st, "evclock")
+		last1 := s.ghostGet(st, "evlast")
+		s.assume(Ge(Select(clk1, I(0)), Select(clk0, I(0))))
+		s.nfresh++
+		k := fmt.Sprintf("ek!%d", s.nfresh)
+		s.assume(T{fmt.Sprintf("(forall ((%s Int)) (! (and (>= (select %s %s) (select %s %s)) (<= (select %s %s) (select %s 0))) :pattern ((select %s %s))))", k, last1.S, k, last0.S, k, last1.S, k, clk1.S, last1.S, k), SBool})
+		// an event kind that did not occur inside the callee keeps its recorded result
+		res0 := old.Heap["X:evres"]
+		if res0.S == "" {
+			res0 = s.ghostGet(old, "evres")
+		}
+		res1 := s.ghostGet(st, "evres")
+		s.nfresh++
+		k2 := fmt.Sprintf("ek!%d", s.nfresh)
+		s.assume(T{fmt.Sprintf("(forall ((%s Int)) (! (=> (= (select %s %s) (select %s %s)) (= (select %s %s) (select %s %s))) :pattern ((select %s %s))))", k2, last1.S, k2, last0.S, k2, res1.S, k2, res0.S, k2, res1.S, k2), SBool})
+	}
 	res := sig.Results()
 	vals := make([]Val, res.Len())
 	if !(c.ModGiven && len(c.Modifies) == 0 && res.Len() > 0 && noRefs(res)) {
@@ -745,7 +787,7 @@ func (s *Session) scanCall(fr *Frame, cc *ssa.CallCommon, mods map[string]string
 				return r
 			}
 		}
-		if m.Pkg() != nil && (hasPrefixAny(m.Pkg().Path(), noEffectPkgs) || m.Pkg().Path() == etcdPkg || m.Pkg().Path() == "context") {
+		if m.Pkg() != nil && (hasPrefixAny(m.Pkg().Path(), noEffectPkgs) || m.Pkg().Path() == etcdPkg || m.Pkg().Path() == "context" || strings.HasPrefix(m.Pkg().Path(), "github.com/pingcap/kvproto")) {
 			return false
 		}
 		if m.FullName() == "(error).Error" {
@@ -1129,12 +1171,30 @@ func (s *Session) callSiteAsserts(fr *Frame, cc *ssa.CallCommon, st *State, inst
 	if len(clauses) == 0 {
 		return
 	}
+	{
+		// bind the explicit call arguments as arg0, arg1, ...
+		saved2 := fr.env
+		env2 := map[string]Val{}
+		for n, v := range saved2 {
+			env2[n] = v
+		}
+		skip := 0
+		if !cc.IsInvoke() && cc.Signature().Recv() != nil {
+			skip = 1
+		}
+		for i := skip; i < len(cc.Args); i++ {
+			env2[fmt.Sprintf("arg%d", i-skip)] = s.valueOf(fr, cc.Args[i])
+		}
+		fr.env = env2
+		defer func() { fr.env = saved2 }()
+	}
 	idx := -1
 	for i, in := range instr.Block().Instrs {
 		if in == ssa.Instruction(instr) {
 			idx = i
 		}
 	}
+	s.addObl(&Obligation{Name: fmt.Sprintf("%s/%s@%s#%d/vacuity", fr.oblPfx, phase, name, k), Kind: "vacuity", Func: fr.oblPfx, Src: "call site reachable (assumptions consistent)", Guard: TTrue, Formula: Not(st.Reach)})
 	for i, cl := range clauses {
 		subs := splitClause(cl)
 		for _, sub := range subs {
@@ -1162,4 +1222,122 @@ func rootAlloc(addr ssa.Value) *ssa.Alloc {
 			return nil
 		}
 	}
+}
+
+// interfere applies the contract's `interfere` clauses before a call (rely/guarantee reasoning for state that
+// other requests may change between two of our own actions).
+func (s *Session) interfere(fr *Frame, cc *ssa.CallCommon, st *State, instr *ssa.Call) {
+	name := calleeName(cc)
+	for _, itf := range fr.contract.Interf {
+		hit := false
+		for _, c := range itf.Callees {
+			if c == name {
+				hit = true
+			}
+		}
+		if !hit {
+			continue
+		}
+		if itf.Lock != "" {
+			se := &SpecEnv{sess: s, pkg: fr.fn.Pkg.Pkg, vars: s.frameEnv(fr), st: st, old: fr.old, fr: fr}
+			e, err := parseSpec(itf.Lock)
+			if err == nil {
+				if loc, err2 := s.evalAddr(se, e); err2 == nil {
+					if st.Locks[loc.Kind+":"+loc.TypeKey+":"+loc.Path] {
+						continue // exclusive section: no interference
+					}
+				}
+			}
+		}
+		before := st.clone()
+		for g := range s.eng.db.Ghosts {
+			s.havocHeap(st, "X:"+g, ghostSort(s.eng.db.Ghosts[g]))
+		}
+		se := &SpecEnv{sess: s, pkg: fr.fn.Pkg.Pkg, vars: s.frameEnv(fr), st: st, old: before, fr: fr}
+		if instr != nil {
+			idx := -1
+			for i, in := range instr.Block().Instrs {
+				if in == ssa.Instruction(instr) {
+					idx = i
+				}
+			}
+			se.lookup = s.localLookupAt(fr, st, instr.Block(), idx)
+		}
+		s.assume(Imp(st.Reach, s.evalBool(se, itf.Pred.E)))
+		s.note("%s: interference by concurrent requests assumed before each call of %s under the rely `%s`", fr.fn.String(), name, itf.Pred.Src)
+	}
+}
+
+// mayEvent: can executing fn reach a call of a function whose contract declares a ghost event?
+func (e *Engine) mayEvent(fn *ssa.Function, visiting map[*ssa.Function]bool) bool {
+	if e.evMemo == nil {
+		e.evMemo = map[*ssa.Function]bool{}
+	}
+	if v, ok := e.evMemo[fn]; ok {
+		return v
+	}
+	if visiting[fn] {
+		return false
+	}
+	visiting[fn] = true
+	res := false
+	check := func(cc *ssa.CallCommon) {
+		if res {
+			return
+		}
+		if cc.IsInvoke() {
+			if named, ok := cc.Value.Type().(*types.Named); ok && named.Obj().Pkg() != nil {
+				if c := e.db.Contracts[named.Obj().Pkg().Path()+"::("+named.Obj().Name()+")."+cc.Method.Name()]; c != nil && c.Options["event"] != "" {
+					res = true
+				}
+			}
+			return
+		}
+		var callee *ssa.Function
+		switch v := cc.Value.(type) {
+		case *ssa.Function:
+			callee = v
+		case *ssa.MakeClosure:
+			callee = v.Fn.(*ssa.Function)
+		}
+		if callee == nil {
+			return
+		}
+		if callee.String() == "time.Now" {
+			return
+		}
+		pkg := fnPkgPath(callee)
+		key := callee.String()
+		if callee.Pkg != nil {
+			key = callee.RelString(callee.Pkg.Pkg)
+		}
+		if c := e.db.Contracts[pkg+"::"+key]; c != nil && c.Options["event"] != "" {
+			res = true
+			return
+		}
+		if strings.HasPrefix(pkg, e.modulePath) && len(callee.Blocks) > 0 {
+			if e.mayEvent(callee, visiting) {
+				res = true
+			}
+		}
+	}
+	for _, b := range fn.Blocks {
+		for _, in := range b.Instrs {
+			switch x := in.(type) {
+			case *ssa.Call:
+				check(&x.Call)
+			case *ssa.Defer:
+				check(&x.Call)
+			case *ssa.Go:
+				check(&x.Call)
+			}
+		}
+	}
+	for _, af := range fn.AnonFuncs {
+		if !res && e.mayEvent(af, visiting) {
+			res = true
+		}
+	}
+	e.evMemo[fn] = res
+	return res
 }
